@@ -247,3 +247,87 @@ Definition frame_apply (f : frame) (o : fop) : frame :=
   | OpSetFrameLen => set_frame_len_in_header f
   | _ => f
   end.
+
+(* ---- wider histories (C17 / C11 hardening): every public attribute of the frame, of its
+   header and of its data field assigned directly, parts replaced, the decoded object used
+   again.  None of these assignments recomputes a cached size except the tfdz setter. ---- *)
+Definition opt_present {A} (o : option A) : bool := match o with Some _ => true | None => false end.
+
+(* header.<attribute k> = v ; k = 0 scid, 1 src_dest, 2 vcid, 3 map_id (both header kinds),
+   4 frame_len, 5 bypass_seq_ctrl_flag, 6 prot_ctrl_cmd_flag, 7 op_ctrl_flag, 8 vcf_count_len
+   (primary header only) *)
+Definition hbase_set (b : hbase) (k v : Z) : hbase :=
+  {| scid := if k =? 0 then v else scid b; src_dest := if k =? 1 then v else src_dest b;
+     vcid := if k =? 2 then v else vcid b; map_id := if k =? 3 then v else map_id b |}.
+Definition phdr_set (h : phdr) (k v : Z) : phdr :=
+  {| pbase := hbase_set (pbase h) k v;
+     frame_len := if k =? 4 then v else frame_len h;
+     bypass := if k =? 5 then v else bypass h;
+     prot := if k =? 6 then v else prot h;
+     ocf_flag := if k =? 7 then v else ocf_flag h;
+     vcf_len := if k =? 8 then v else vcf_len h;
+     vcf_count := vcf_count h |}.
+Definition phdr_set_count (h : phdr) (c : option Z) : phdr :=
+  {| pbase := pbase h; frame_len := frame_len h; bypass := bypass h; prot := prot h;
+     ocf_flag := ocf_flag h; vcf_len := vcf_len h; vcf_count := c |}.
+Definition fhdr_set (h : fhdr) (k v : Z) : fhdr :=
+  match h with
+  | HTrunc b => HTrunc (hbase_set b k v)
+  | HPrim p => HPrim (phdr_set p k v)
+  end.
+Definition fhdr_set_count (h : fhdr) (c : option Z) : fhdr :=
+  match h with HTrunc b => HTrunc b | HPrim p => HPrim (phdr_set_count p c) end.
+
+Inductive fop2 :=
+| O2Base (o : fop)
+| O2SetIz (z : option bytes) | O2SetOcf (z : option bytes) | O2SetFecf (z : option bytes)
+| O2Hdr (k v : Z) | O2VcfCount (c : option Z)
+| O2SetFhp (p : option Z)          (* tfdf.fhp_or_lvop = p : the cached size is left alone *)
+| O2SetRules (r : Z) | O2SetIdent (i : Z)
+| O2NewTfdf (r i : Z) (d : bytes) (p : option Z)   (* frame.tfdf = TransferFrameDataField(..) *)
+| O2Redecode                        (* frame = unpack(pack(frame)) under matching parameters *)
+| O2Roundtrip.                      (* observe unpack(pack(frame)), keep the object *)
+
+Definition with_tfdf (f : frame) (t : tfdf) : frame :=
+  {| hdr := hdr f; ftfdf := t; izone := izone f; ocf := ocf f; fecf := fecf f |}.
+Definition with_hdr (f : frame) (h : fhdr) : frame :=
+  {| hdr := h; ftfdf := ftfdf f; izone := izone f; ocf := ocf f; fecf := fecf f |}.
+
+(* pack, then decode the octets (followed by two foreign octets) with the managed parameters
+   that match the object: frame type by the construction rule's family, fixed / truncated length
+   = packed size, insert zone and FECF present with their sizes exactly when the object has them *)
+Definition frame_roundtrip (f : frame) (truncated : bool) (ft : option ftype) : res frame :=
+  do raw <- frame_pack f truncated ft;
+  let fixed := cnstr_rules_for_fp (rules (ftfdf f)) in
+  do p <- props_new fixed (len raw) (opt_present (izone f)) (opt_present (fecf f))
+            (match izone f with Some z => Some (len z) | None => None end)
+            (match fecf f with Some z => Some (len z) | None => None end);
+  frame_unpack (raw ++ [165; 90]) (if fixed then FtFixed else FtVariable) p.
+
+Definition frame_apply2 (f : frame) (truncated : bool) (ft : option ftype) (o : fop2) : res frame :=
+  match o with
+  | O2Base b => Ok (frame_apply f b)
+  | O2SetIz z => Ok {| hdr := hdr f; ftfdf := ftfdf f; izone := z; ocf := ocf f; fecf := fecf f |}
+  | O2SetOcf z => Ok {| hdr := hdr f; ftfdf := ftfdf f; izone := izone f; ocf := z; fecf := fecf f |}
+  | O2SetFecf z => Ok {| hdr := hdr f; ftfdf := ftfdf f; izone := izone f; ocf := ocf f; fecf := z |}
+  | O2Hdr k v => Ok (with_hdr f (fhdr_set (hdr f) k v))
+  | O2VcfCount c => Ok (with_hdr f (fhdr_set_count (hdr f) c))
+  | O2SetFhp p => let t := ftfdf f in
+      Ok (with_tfdf f {| rules := rules t; ident := ident t; fhp := p; tfdz := tfdz t; tsize := tsize t |})
+  | O2SetRules r => let t := ftfdf f in
+      Ok (with_tfdf f {| rules := r; ident := ident t; fhp := fhp t; tfdz := tfdz t; tsize := tsize t |})
+  | O2SetIdent i => let t := ftfdf f in
+      Ok (with_tfdf f {| rules := rules t; ident := i; fhp := fhp t; tfdz := tfdz t; tsize := tsize t |})
+  | O2NewTfdf r i d p => do t <- tfdf_new r i d p; Ok (with_tfdf f t)
+  | O2Redecode => frame_roundtrip f truncated ft
+  | O2Roundtrip => Ok f
+  end.
+
+(* ---- header objects on their own: attribute assignments, pack, len ---- *)
+Inductive hop := HSet (k v : Z) | HCount (c : option Z) | HPack | HLen | HObserve.
+Definition hdr_apply (h : fhdr) (o : hop) : fhdr :=
+  match o with
+  | HSet k v => fhdr_set h k v
+  | HCount c => fhdr_set_count h c
+  | _ => h
+  end.
